@@ -154,25 +154,28 @@ type AltResult struct {
 
 // GenResult is what was observed of one plugin run.
 type GenResult struct {
-	Key          string      `json:"key"`
-	Exit         int         `json:"exit"`
-	Stderr       string      `json:"-"`
-	StdoutLen    int         `json:"stdoutlen"`
-	DecodeOK     bool        `json:"decodeok"`  // stdout is exactly one well-formed response
-	RespError    string      `json:"resperror"` // response.error
-	Features     int         `json:"features"`
-	Files        []string    `json:"files"`
-	FileBase     string      `json:"filebase"` // base name of the single output file
-	Content      string      `json:"-"`
-	Sha          string      `json:"sha"`        // sha256 of the raw stdout
-	ContentSha   string      `json:"contentsha"` // sha256 of the generated file
-	LicenseOK    bool        `json:"licenseok"`
-	Package      string      `json:"package"`
-	Funcs        []FuncInfo  `json:"funcs"`
-	Types        []string    `json:"typesdecl"` // top-level type declarations
-	Imports      []string    `json:"imports"`
-	ParseErr     string      `json:"parseerr"`
-	Warned       []string    `json:"warned"` // message names in "failed to build the message X" log lines
+	Key        string     `json:"key"`
+	Exit       int        `json:"exit"`
+	Stderr     string     `json:"-"`
+	StdoutLen  int        `json:"stdoutlen"`
+	DecodeOK   bool       `json:"decodeok"`  // stdout is exactly one well-formed response
+	RespError  string     `json:"resperror"` // response.error
+	Features   int        `json:"features"`
+	Files      []string   `json:"files"`
+	FileBase   string     `json:"filebase"` // base name of the single output file
+	Content    string     `json:"-"`
+	Sha        string     `json:"sha"`        // sha256 of the raw stdout
+	ContentSha string     `json:"contentsha"` // sha256 of the generated file
+	LicenseOK  bool       `json:"licenseok"`
+	Package    string     `json:"package"`
+	Funcs      []FuncInfo `json:"funcs"`
+	Types      []string   `json:"typesdecl"` // top-level type declarations
+	Imports    []string   `json:"imports"`
+	ParseErr   string     `json:"parseerr"`
+	Warned     []string   `json:"warned"` // message names in "failed to build the message X" log lines
+	// Named: message names of the descriptor that some log line of level warning / error (or any line not marked
+	// info / debug) mentions as a whole word, whatever its wording ("a diagnostic naming the type is logged")
+	Named        []string    `json:"named"`
 	Processing   []string    `json:"processing"`
 	Compile      string      `json:"compile"` // "" ok, else compiler output (set by Build)
 	Param        string      `json:"param"`
@@ -274,6 +277,19 @@ func (e *Env) Generate(v Variant) (*GenResult, error) {
 	}
 	for _, m := range reProc.FindAllStringSubmatch(r.Stderr, -1) {
 		r.Processing = append(r.Processing, m[1])
+	}
+	r.Named = []string{}
+	for _, m := range v.D.Msgs {
+		re := regexp.MustCompile(`(^|[^A-Za-z0-9_])` + regexp.QuoteMeta(m.Name) + `($|[^A-Za-z0-9_])`)
+		for _, line := range strings.Split(r.Stderr, "\n") {
+			if strings.Contains(line, "level=info") || strings.Contains(line, "level=debug") {
+				continue
+			}
+			if re.MatchString(line) {
+				r.Named = append(r.Named, m.Name)
+				break
+			}
+		}
 	}
 	resp := &pluginpb.CodeGeneratorResponse{}
 	if len(so) > 0 {
